@@ -463,3 +463,49 @@ def rng_choice(eng, st, node, a, kw, k, ctx):
     st.ghost["ghost.last_pick"] = V(INT, kx)
     st.ghost["ghost.last_rng"] = V(Opaque("Generator"), rng.t)
     return k(st, eng.typing_facts(st, V(ret_sort, at(kx))) if ret_sort[0] in ("ref", "list") else V(ret_sort, at(kx)))
+
+
+# ------------------------------------------------------------------ text files as abstract sequences of lines
+@external("open")
+def builtin_open(eng, st, node, a, kw, k, ctx):
+    """open(name[, "r"]) : a fresh list of lines (any number, any content) or OSError.  Writing modes are not modelled."""
+    if len(a) > 1 and not (a[1].s == PY and a[1].t in ("r", "rt")):
+        raise Unsupported("open() in a mode other than 'r'")
+    s_bad = st.fork()
+    okv = fresh("open_ok", z3.BoolSort())
+    s_bad.assume(z3.Not(okv))
+    eng.throw(s_bad, "OSError", node, ctx)
+    st.assume(okv)
+    n = fresh("nlines", z3.IntSort())
+    st.assume(n >= 0)
+    lines = fresh("lines", z3.ArraySort(z3.IntSort(), z3.StringSort()))
+    eng.assumption_log.add("open(name, 'r') yields an arbitrary finite sequence of text lines or raises OSError; iterating it yields the lines in order (trusted)")
+    return k(st, eng.new_list(st, STR, n, lines))
+
+
+@external("files")
+def importlib_files(eng, st, node, a, kw, k, ctx):
+    return k(st, V(("opq", "Traversable", False), fresh("pkgdir", z3.IntSort())))
+
+
+@external("Traversable.joinpath")
+def traversable_joinpath(eng, st, node, a, kw, k, ctx):
+    eng.assumption_log.add("importlib.resources.files(pkg).joinpath(...) names the bundled data file (an opaque path; trusted)")
+    return k(st, V(STR, fresh("bundled_path", z3.StringSort())))
+
+
+@external("str.split")
+def str_split(eng, st, node, a, kw, k, ctx):
+    """text.split([sep]) : a fresh list of texts; with a separator at least one piece, and exactly one piece iff the separator does not occur.
+    The pieces themselves are uninterpreted functions of (text, separator, position)."""
+    s = a[0]
+    sep = lift(a[1]) if len(a) > 1 else None
+    n = fresh("npieces", z3.IntSort())
+    pieces = fresh("pieces", z3.ArraySort(z3.IntSort(), z3.StringSort()))
+    if sep is not None:
+        st.assume(n >= 1)
+        st.assume((n == 1) == z3.Not(z3.Contains(s.t, sep.t)))
+    else:
+        st.assume(n >= 0)
+    eng.assumption_log.add("str.split returns a list of texts (their number: 1 iff the separator does not occur; contents abstract)")
+    return k(st, eng.new_list(st, STR, n, pieces))
